@@ -49,10 +49,12 @@ func (s Sort) isArray() (Sort, Sort, bool) {
 	return "", "", false
 }
 
+const goquoDef = `(define-fun goquo ((a Int) (b Int)) Int (ite (>= a 0) (ite (> b 0) (div a b) (- (div a (- b)))) (ite (> b 0) (- (div (- a) b)) (div (- a) (- b)))))`
+const goremDef = `(define-fun gorem ((a Int) (b Int)) Int (- a (* b (goquo a b))))`
+
 const prelude = `(declare-sort Ref 0)
 (declare-const nil Ref)
-(define-fun goquo ((a Int) (b Int)) Int (ite (>= a 0) (ite (> b 0) (div a b) (- (div a (- b)))) (ite (> b 0) (- (div (- a) b)) (div (- a) (- b)))))
-(define-fun gorem ((a Int) (b Int)) Int (- a (* b (goquo a b))))
+` + goquoDef + "\n" + goremDef + `
 (define-fun gotrunc ((x Real)) Int (ite (>= x 0.0) (to_int x) (- (to_int (- x)))))
 (define-fun rfloor ((x Real)) Real (to_real (to_int x)))
 (define-fun rceil ((x Real)) Real (- (to_real (to_int (- x)))))
@@ -87,6 +89,8 @@ type Obligation struct {
 	Decls     []string // declarations (shared prefix)
 	Hyps      []string
 	Goal      string
+	PrefixN   int  // for reach checks: number of leading hypotheses that describe the state before the assumption under test
+	HasPrefix bool
 	ExpectSat bool // vacuity / reachability checks: expected to be satisfiable (goal is "false")
 	Note      string
 	// results
@@ -112,6 +116,7 @@ func (o *Obligation) smt(produceModel bool) string {
 		body.WriteString(")\n")
 	}
 	bs := body.String()
+	goal, skDecls := skolemizeGoal(o.Goal)
 	// only the declarations that are used (keeps files small and models readable)
 	for _, d := range o.Decls {
 		name := declName(d)
@@ -126,9 +131,13 @@ func (o *Obligation) smt(produceModel bool) string {
 			b.WriteByte('\n')
 		}
 	}
+	for _, d := range skDecls {
+		b.WriteString(d)
+		b.WriteByte('\n')
+	}
 	b.WriteString(bs)
 	b.WriteString("(assert (not ")
-	b.WriteString(o.Goal)
+	b.WriteString(goal)
 	b.WriteString("))\n(check-sat)\n")
 	if produceModel {
 		b.WriteString("(get-model)\n")
@@ -203,6 +212,24 @@ func decide(o *Obligation, tmpdir string, timeoutMs int, confirm bool) {
 		return
 	}
 	var all []solverResult
+	// stage 0: Go's / and % as uninterpreted functions (a weaker theory: unsat there is unsat with the definitions);
+	// many structural obligations only need congruence and the nonlinear definitions make the solvers give up
+	if !o.ExpectSat {
+		txt := o.smt(false)
+		if strings.Contains(txt, "(goquo ") || strings.Contains(txt, "(gorem ") {
+			uf := strings.Replace(txt, goquoDef, "(declare-fun goquo (Int Int) Int)", 1)
+			uf = strings.Replace(uf, goremDef, "(declare-fun gorem (Int Int) Int)", 1)
+			uff := file + ".uf.smt2"
+			os.WriteFile(uff, []byte(uf), 0o644)
+			r0 := runSolver(solvers[0], uff, 2500)
+			if r0.res == "unsat" {
+				o.Status = "discharged"
+				o.Solver = "z3-new(div/mod uninterpreted)"
+				o.Ms = r0.ms
+				return
+			}
+		}
+	}
 	// stage 1: z3-new with a short budget, stage 2: race all with the full budget
 	stage1 := timeoutMs
 	if stage1 > 4000 {
@@ -236,6 +263,18 @@ func decide(o *Obligation, tmpdir string, timeoutMs int, confirm bool) {
 	o.Ms = r.ms
 	if o.ExpectSat {
 		// goal is "false": hypotheses must be satisfiable (sat or unknown accepted; unsat = vacuous)
+		if r.res == "unsat" && o.HasPrefix {
+			// dead path before the assumption already? then nothing is wrong
+			p := *o
+			p.Hyps = o.Hyps[:o.PrefixN]
+			pf := file + ".prefix.smt2"
+			os.WriteFile(pf, []byte(p.smt(false)), 0o644)
+			pr := runSolver(solvers[0], pf, 3000)
+			if pr.res == "unsat" {
+				o.Status = "expected-sat-ok"
+				return
+			}
+		}
 		if r.res == "unsat" {
 			o.Status = "vacuous"
 			o.RawOut = r.out
